@@ -18,11 +18,13 @@ def main():
     ap.add_argument("--props")
     ap.add_argument("--tier", default="quick")
     ap.add_argument("--name")
+    ap.add_argument("--src")
+    ap.add_argument("--wt")
     a = ap.parse_args()
-    src = "/tmp/seedout/%s" % (a.name or a.pid)
+    src = a.src or "/tmp/seedout/%s" % (a.name or a.pid)
     patch = os.path.join(src, "patch.diff")
     assert os.path.exists(patch), "no patch.diff"
-    wt = "/tmp/seedconfirm/%s" % (a.name or a.pid)
+    wt = "/tmp/seedconfirm/%s%s" % (a.name or a.pid, "b" if a.src else "")
     sh("git -C /repo worktree remove --force %s" % wt)
     shutil.rmtree(wt, ignore_errors=True)
     os.makedirs("/tmp/seedconfirm", exist_ok=True)
@@ -32,7 +34,7 @@ def main():
     try:
         demos = [f for f in glob.glob(os.path.join(src, "*")) if f.endswith("_test.go") or f.endswith(".go")]
         # where does the demo go?  take the location from the agent's worktree
-        agent_wt = "/tmp/seedwt/%s" % (a.name or a.pid)
+        agent_wt = a.wt or "/tmp/seedwt/%s" % (a.name or a.pid)
         rc, lst = sh("git -C %s status --porcelain --untracked-files=all" % agent_wt)
         demo_paths = [l[3:].strip() for l in lst.splitlines() if l.startswith("??") and l.strip().endswith(".go")]
         for dp in demo_paths:
